@@ -26,6 +26,15 @@ nine methods unwinds with "Sender dropped": `unwound op`), a thread-local system
 inside `wait` (`tlP`, then `unwound wait`; nothing but the caller's position changes). `setup`
 calls the setup hook of every system (`hook`), after `inner()`.
 
+**Calling context.** Nothing below depends on which thread drives the dispatcher: `Th.caller`
+is whichever thread calls the methods — an ordinary thread, a worker of the dispatcher's own pool
+(the dispatcher is driven inside `pool.install`), or a worker of another pool — and the model has
+no further parameter for it (see "The calling context" in `Model/Async.lean`), so every theorem
+holds in each of these contexts as it stands. **Long plans.** `P` is arbitrary, so plans of any
+number of stages are covered; `chain_each_stage_once` spells the exactly-once clause out for
+plans of `n` stages with one system each (any `n`): the events of a completed dispatch are
+`F x₁ D x₁ … F xₙ D xₙ`, each stage once and in order.
+
 The driver executes `feed` / `acceptsLog` of the same file; `accepted_is_run` transfers every
 theorem below to every merged log the driver accepts.
 -/
@@ -494,6 +503,50 @@ all of the above therefore holds of it. -/
 theorem accepted_is_run (h : acceptsLog P l = true) : ∃ c, Run P c l :=
   (acceptsLog_sound h).imp fun _ h => h.1
 
+/-! ### long plans: one system per stage, any number of stages -/
+
+/-- the dispatcher `build_async` produces for `xs.length` systems that end up in `xs.length` stages
+of one group of one system each — a dependency chain, systems that all write one resource, systems
+separated by barriers, or any mixture of these: `stages = [[[x₁]], [[x₂]], …]` -/
+def chainPlan (xs tl : List Nat) : APlan := ⟨stagesTask (xs.map fun x => [[x]]), tl⟩
+
+/-- `for stage in &mut inner.stages { stage.execute(world) }` over such stages has exactly one trace -/
+theorem chain_traces (xs : List Nat) (t : List (Ev Nat))
+    (h : Traces (stagesTask (xs.map fun x => [[x]])) t) : t = xs.flatMap fun x => [Ev.F x, Ev.D x] := by
+  induction xs generalizing t with
+  | nil => cases h; rfl
+  | cons x xs ih =>
+    simp only [stagesTask, List.map, Task.seqN] at h ih
+    cases h with
+    | seq ha hb =>
+      simp only [stageTask, groupTask, List.map, Task.parN, Task.seqN] at ha
+      cases ha with
+      | par h1 h2 hsh =>
+        cases h2
+        cases h1 with
+        | seq hl hn =>
+          cases hl
+          cases hn
+          have hb' := ih _ hb
+          subst hb'
+          -- the shuffle with the empty trace of `parN []` is the identity
+          cases hsh with
+          | left h' => cases h' with
+            | left h'' => cases h''; rfl
+
+/-- **C15 (exactly once, plans of any length).** For every number of stages: at every moment at
+which `dispatch` or an accessor (anything but `running`) returns, the events of every completed
+dispatch are exactly `F x₁ D x₁ F x₂ D x₂ … F xₙ D xₙ` — every stage has run once, in order, none
+a second time (whatever position it has in the plan), in every calling context and whatever
+happened in between. -/
+theorem chain_each_stage_once {xs tl : List Nat} {c : Ctl} {l l1 l2 : List AEv} {op : AOp} {v : Bool}
+    (h : Run (chainPlan xs tl) c l) (hl : l = l1 ++ .ret op v :: l2) (h1 : op ≠ .running)
+    (d : Nat) (hd : d < dispatches l1) : projD d l1 = xs.flatMap fun x => [Ev.F x, Ev.D x] := by
+  by_cases h2 : op = .dispatch
+  · subst h2
+    exact chain_traces xs _ ((dispatch_quiescent h hl).1 d hd)
+  · exact chain_traces xs _ ((accessor_quiescent h hl h1 h2).1 d hd)
+
 /-! ### non-vacuity: a concrete run exercising every hypothesis above, and logs that are refused -/
 
 /-- stage 1 = {0} ∥ {1;2}, stage 2 = {3}; one thread-local system 4 -/
@@ -653,6 +706,43 @@ example :
     acceptsLog P1 [call world, hook caller 0] = false := by
   decide
 
+/-! a plan of nine stages (what the builder makes of nine systems that all write one resource) -/
+def P9 : APlan := chainPlan [0, 1, 2, 3, 4, 5, 6, 7, 8] [9]
+
+/-- one pass over the nine stages, as dispatch number `d` logs it -/
+def pass9 (d : Nat) : List AEv := (List.range 9).flatMap fun x => [AEv.sys .worker d (.F x), AEv.sys .worker d (.D x)]
+
+open AEv AOp Th in
+/-- two dispatches of the nine-stage plan: the second is issued while the first is in its eighth
+stage (it blocks), the thread-local system runs inside the final `wait` -/
+def log9 : List AEv :=
+  [call dispatch, ret dispatch false] ++ (pass9 0).take 15 ++ [call dispatch] ++ (pass9 0).drop 15 ++
+  (pass9 1).take 4 ++ [ret dispatch false, call running, ret running true] ++ (pass9 1).drop 4 ++
+  [call wait, tl caller (.F 9), tl caller (.D 9), ret wait false]
+
+example : acceptsLog P9 log9 = true := by decide
+/-- the hypotheses of `chain_each_stage_once` hold at the final `ret wait` (two completed dispatches) -/
+example : dispatches (log9.take 45) = 2 := by decide
+open AEv AOp Th in
+/-- refused: the eighth stage runs a second time (after its first run, or after the last stage),
+before or after completion is reported -/
+example :
+    acceptsLog P9 ([call dispatch, ret dispatch false] ++ (pass9 0).take 16 ++ [sys worker 0 (.F 7)]) = false ∧
+    acceptsLog P9 ([call dispatch, ret dispatch false] ++ pass9 0 ++ [sys worker 0 (.F 7)]) = false ∧
+    acceptsLog P9 ([call dispatch, ret dispatch false] ++ pass9 0 ++ [call wait, sys worker 0 (.F 8)]) = false ∧
+    acceptsLog P9 ([call dispatch, ret dispatch false] ++ pass9 0 ++
+      [call waitWithoutTl, ret waitWithoutTl false, sys worker 0 (.F 8)]) = false := by
+  decide
+open AEv AOp Th in
+/-- refused in every calling context: `wait_without_tl` returns while the system of the third stage
+is inside `run` (the pool having nothing queued does not make the dispatch complete); an ordinary
+system on the thread that drives the dispatcher -/
+example :
+    acceptsLog P9 ([call dispatch, ret dispatch false] ++ (pass9 0).take 5 ++
+      [call waitWithoutTl, ret waitWithoutTl false]) = false ∧
+    acceptsLog P9 [call dispatch, ret dispatch false, call waitWithoutTl, sys caller 0 (.F 0)] = false := by
+  decide
+
 end Async
 end Shred
 
@@ -686,3 +776,5 @@ end Shred
 #print axioms Shred.Async.tl_panic_state
 #print axioms Shred.Async.setup_reaches
 #print axioms Shred.Async.hook_only_in_setup
+#print axioms Shred.Async.chain_traces
+#print axioms Shred.Async.chain_each_stage_once
